@@ -225,7 +225,7 @@ FinishNumber(bs) ==
   LET v == [t |-> "num", a |-> bs.cur.a, z |-> bs.pos, lit |-> bs.cur.lit]
       b1 == Deliver(bs, v)
   IN [b1 EXCEPT !.inf = bs.inf \/ ~LitIsFinite(bs.cur.lit),
-                !.bigexp = bs.bigexp \/ Len(StripZ(Scan(bs.cur.lit).ed)) >= 3]
+                !.bigexp = bs.bigexp \/ Len(Scan(bs.cur.lit).ed) >= 3]
 
 AppendCp(bs, cp) == [bs EXCEPT !.cur.s = Append(@, cp)]
 
@@ -320,6 +320,13 @@ Denotes(bytes)       == BRun(bytes, FALSE).root
 BStepP(bs, b) == IF bs.root # NoVal \/ bs.s.m = "rej" THEN bs ELSE BStep(bs, b)
 PRun(bytes, lax) == LET r == FoldLeft(BStepP, BInit(lax), bytes) IN IF r.root # NoVal THEN r ELSE BFinish(r)
 PrefixOk(bytes, lax) == LET r == PRun(bytes, lax) IN r.root # NoVal /\ (lax \/ ~r.inf)
+
+\* A root-level number directly followed by a byte that is not a delimiter ("-09", "1x"): whether a
+\* one-value entry point returns the number and leaves the rest, or rejects, is left open.
+PrefixAmbiguous(bytes, lax) ==
+  LET r == PRun(bytes, lax) IN
+  /\ r.root # NoVal /\ r.root.t = "num" /\ r.root.z < Len(bytes)
+  /\ Class(bytes[r.root.z + 1]) \notin {"sp", "wsc", ",", "]", "}"}
 
 \* offset at which the machine rejected (number of bytes consumed), or Len if it did not
 RejectPos(bytes, lax) == BRun(bytes, lax).pos
